@@ -73,3 +73,11 @@ def _seal(prop, tier, seed, replay):
 
 
 CHECKS.update({"C11": _seal, "C12": _seal})
+
+
+def _c13(prop, tier, seed, replay):
+    import fam_pure
+    return seqfamily.check(prop, fam_pure.faults_family(), tier, seed, replay)
+
+
+CHECKS["C13"] = _c13
